@@ -320,8 +320,15 @@ func (r *sharedResource) loop(ctx context.Context) {
 
 			// attempt to allocate the partition
 			id := fmt.Sprint(uuid.New())
+			requested := time.Now()
 			leaseTime := r.leaseManager.LeasePartition(ctx, id, index)
 			if leaseTime == 0 {
+				continue
+			}
+
+			// the lease began no later than the moment it was requested, so it is counted from then
+			leaseTime -= time.Since(requested)
+			if leaseTime <= 0 {
 				continue
 			}
 
